@@ -7,7 +7,9 @@ def SameCost : Int := 1
 def MatchCost : Int := 4
 def BlockCost : Int := 15
 def RMatchCost : Int := 4
-def fpAlignRecursion : String := "94c67302c48d3359"
+def fpAlignRecursion : String := "d76e96b076003751"
 def fpAlignTraps : String := "12866ecdea35edb5"
+def fpTraceForward : String := "3242f214c997c8ca"
+def fpTraceReverse : String := "28298aacb4d36e37"
 
 end Biogo.Generated.Pals
